@@ -69,8 +69,17 @@
     (Random/CrossReject.v).  Guard: the trial count is a multiple of every
     sustain count (otherwise the check indexes past the end of a row) and a
     Sustain constraint is listed whenever a sustain count is not 1.
-    Missing: derived factors with derived or complex sources, uncrossed derived
-    factors of [act_design], transition / window factors, LatinSquare, preambles
+    DERIVED FACTORS OF [act_design] OUTSIDE THE SAMPLED CROSSING (one crossing
+    then): within-trial factors that read drawn factors (plain ones, or derived
+    ones of the crossing) through a table in which exactly one level accepts
+    every argument tuple.  RandomGen does not draw them: after the rounds are
+    combined [fill_in_nonpreamble_uncrossed_derived] computes their rows
+    ([select_level_for_sample]: the first accepting level), Random/Frag0Fill.v;
+    the candidate of a key is [Frag0Decode.cand_row].  Constraints on them are
+    enforced by rejection like all others.
+    Missing: derived factors with derived or complex sources, derived factors
+    outside the crossing that read other such factors, Exclude on a derived
+    level, transition / window factors, LatinSquare, preambles
     / complex windows (where the sampled crossing itself is checked by
     rejection), constraints with a sustained geometry.  Outside the fragment the property is decided per run by the
     search of harness/props/c05.py and the C04 harness (exhausted RandomGen vs.
@@ -149,3 +158,9 @@ Example C04_example_nested :
   frag2 ex8_flat = true /\ main_idx ex8_flat = 1 /\ length (keys_of ex8_flat) = 64 /\
   length (accepted_keys ex8_flat) = 8 /\ check_sound ex8_flat = true.
 Proof. split; [exact ex8_frag2|]. split; [exact ex8_main|]. split; [exact ex8_nkeys|]. split; [exact ex8_nacc | exact ex8_sound]. Qed.
+
+(** a derived factor of [act_design] outside the sampled crossing, with a constraint on it: 24 keys, 12 accepted = 12 valid *)
+Example C04_example_uncrossed_derived :
+  frag2 ex9_flat = true /\ has_derived ex9_flat = true /\ length (keys_of ex9_flat) = 24 /\
+  length (accepted_keys ex9_flat) = 12 /\ check_sound ex9_flat = true.
+Proof. split; [exact ex9_frag2|]. split; [exact ex9_derived|]. split; [exact ex9_nkeys|]. split; [exact ex9_nacc | exact ex9_sound]. Qed.
